@@ -257,3 +257,23 @@ def direct_align_case(rng):
              sj=rng.choice([0.0, 0.5, 1.0, 2.0]), ss=rng.choice([0, 1]))
     return {'kind': 'direct', 'ref': ref, 'ref_len': ref[-1] + 5000, 'query': q, 'query_len': q[-1] + 1,
             'shift': shift, 'rev': rev, 'peaks': pk, 'params': P, 'peak_kind': kind}
+
+
+def add_nearfull(rng, case, n=None):
+    """Adds short reference contigs and queries covering nearly all of one (either strand): the correlation of the
+    matching strand is then only a few bins long, an input shape ordinary windows never produce."""
+    n = n or rng.randint(1, 2)
+    rid = max(m[0] for m in case['refs']) + 1
+    qid = max(m[0] for m in case['queries']) + 1
+    for _ in range(n):
+        pos = gen_ref(rng, rng.randint(12, 40), repeats=False)
+        case['refs'].append([rid, ref_length(rng, pos), pos])
+        drop_front, drop_back = rng.choice([(0, 1), (1, 0), (0, 0), (1, 1), (0, 2)])
+        sub = pos[drop_front:len(pos) - drop_back]
+        q = [p - sub[0] for p in sub]
+        qp, ql = finish_query(rng, q, off=rng.choice([0, 20.5, 300]), trail=rng.choice([0.1, 1, 50]))
+        case['queries'].append([qid, ql, qp])
+        case['qclass'][str(qid)] = 'nearfull'
+        rid += 1
+        qid += 1
+    return case
